@@ -214,19 +214,63 @@ Lemma marker_size_reject_unchanged :
   eval (e_get e) [] = Ok PNone /\ run (e_set e) (plain (PInt 1)) [] = ([], Err ValueErr).
 Proof. vm_compute. auto. Qed.
 
-(** placeholder: assigning left creates a:off with y = 0, so top no longer reads the inherited value *)
+(** placeholder (regression witness of the former refutation): assigning left to a placeholder that inherits its
+    geometry creates a:off, whose y the setter now writes from the base: top reads the inherited value as before
+    (it read 0 when the setter was the bare element-level assignment).  The footprints still overlap: the
+    positive statement is ph_others_read_same below, not C09_frame. *)
 Definition w_placeholder : st :=
   [ ((pth "p:spPr", None), []); ((pth "~base", None), []); ((pth "~base", Some (s2l "top")), s2l "1600200");
     ((pth "~base", Some (s2l "left")), s2l "457200") ]%lit.
-Lemma placeholder_frame_refuted :
+Lemma placeholder_frame_witness :
   let l := entry_named "_InheritsDimensions.left@sp" in
   let t := entry_named "_InheritsDimensions.top@sp" in
   wf w_placeholder = true
   /\ eval (e_get t) w_placeholder = Ok (PInt 1600200)
   /\ snd (run (e_set l) (plain (PInt 914400)) w_placeholder) = Ok tt
-  /\ eval (e_get t) (fst (run (e_set l) (plain (PInt 914400)) w_placeholder)) = Ok (PInt 0)
+  /\ eval (e_get t) (fst (run (e_set l) (plain (PInt 914400)) w_placeholder)) = Ok (PInt 1600200)
+  /\ lookup (pth "p:spPr/a:xfrm/a:off", Some (s2l "y")) (fst (run (e_set l) (plain (PInt 914400)) w_placeholder)) = Some (s2l "1600200")
+  /\ eval (e_get l) (fst (run (e_set l) (plain (PInt 914400)) w_placeholder)) = Ok (PInt 914400)
   /\ e_indep l t = false.
-Proof. vm_compute. auto. Qed.
+Proof. vm_compute. auto 10. Qed.
+
+(** the guard of ph_others_read_same is needed: a dimension for which neither the placeholder nor its base has a
+    value reads None; when its partner in a:off (a:ext) is assigned, or written back, the new element carries 0 *)
+Definition w_placeholder_no_top : st :=
+  [ ((pth "p:spPr", None), []); ((pth "~base", None), []); ((pth "~base", Some (s2l "left")), s2l "457200");
+    ((pth "~base", Some (s2l "height")), s2l "100") ]%lit.
+Lemma placeholder_none_partner_reads_zero :
+  let l := entry_named "_InheritsDimensions.left@sp" in
+  let t := entry_named "_InheritsDimensions.top@sp" in
+  let w := entry_named "_InheritsDimensions.width@sp" in
+  let h := entry_named "_InheritsDimensions.height@sp" in
+  wf w_placeholder_no_top = true
+  /\ eval (e_get t) w_placeholder_no_top = Ok PNone /\ eval (e_get w) w_placeholder_no_top = Ok PNone
+  /\ snd (run (e_set l) (plain (PInt 914400)) w_placeholder_no_top) = Ok tt
+  /\ eval (e_get t) (fst (run (e_set l) (plain (PInt 914400)) w_placeholder_no_top)) = Ok (PInt 0)
+  /\ eval (e_get w) (fst (run (e_set l) (plain (PInt 914400)) w_placeholder_no_top)) = Ok (PInt 0)
+  /\ eval (e_get h) (fst (run (e_set l) (plain (PInt 914400)) w_placeholder_no_top)) = Ok (PInt 100).
+Proof. vm_compute. auto 10. Qed.
+
+(** order of evaluation: the readings are taken before anything is written (an exception of a reading leaves the
+    element untouched); a base value its own simple type refuses raises AFTER the assignment and the earlier
+    write-backs were made *)
+Definition w_placeholder_bad_off : st :=
+  [ ((pth "p:spPr", None), []); ((pth "p:spPr/a:xfrm", None), []); ((pth "p:spPr/a:xfrm/a:off", None), []);
+    ((pth "p:spPr/a:xfrm/a:off", Some (s2l "x")), s2l "5") ]%lit.
+Definition w_placeholder_bad_base : st :=
+  [ ((pth "p:spPr", None), []); ((pth "~base", None), []); ((pth "~base", Some (s2l "top")), s2l "7");
+    ((pth "~base", Some (s2l "width")), s2l "-3"); ((pth "~base", Some (s2l "height")), s2l "9") ]%lit.
+Lemma placeholder_evaluation_order :
+  let l := entry_named "_InheritsDimensions.left@sp" in
+  let w := entry_named "_InheritsDimensions.width@sp" in
+  let h := entry_named "_InheritsDimensions.height@sp" in
+  run (e_set w) (plain (PInt 914400)) w_placeholder_bad_off = (w_placeholder_bad_off, Err OtherErr)
+  /\ snd (run (e_set l) (plain (PInt 1)) w_placeholder_bad_base) = Err ValueErr
+  /\ lookup (pth "p:spPr/a:xfrm/a:off", Some (s2l "x")) (fst (run (e_set l) (plain (PInt 1)) w_placeholder_bad_base)) = Some (s2l "1")
+  /\ lookup (pth "p:spPr/a:xfrm/a:off", Some (s2l "y")) (fst (run (e_set l) (plain (PInt 1)) w_placeholder_bad_base)) = Some (s2l "7")
+  /\ present (pth "p:spPr/a:xfrm/a:ext") (fst (run (e_set l) (plain (PInt 1)) w_placeholder_bad_base)) = false
+  /\ eval (e_get h) (fst (run (e_set l) (plain (PInt 1)) w_placeholder_bad_base)) = Ok (PInt 9).
+Proof. vm_compute. auto 10. Qed.
 
 (** position of an inheriting shape: a refused value adds no a:xfrm / a:off, the inherited readings stay *)
 Lemma placeholder_reject_unchanged :
@@ -319,6 +363,175 @@ Proof.
   assert (Hr : in_range (-2147483648) 2147483647 z = true) by (apply in_range_spec; lia).
   rewrite Hr. rewrite (proj2 (coordinate_reads z Hb)). auto.
 Qed.
+
+(** * placeholder geometry (_InheritsDimensions._set_dimension): the assigned dimension reads back, the other
+      three read as before *)
+(** width / height (ST_PositiveCoordinate): every accepted int reads back as itself *)
+Theorem size_exact z : (0 <= z <= 27273042316900)%Z ->
+  stored (ad_codec A_CT_PositiveSize2D__cx) (ad_kind A_CT_PositiveSize2D__cx) (PInt z) = Ok (PInt z)
+  /\ stored (ad_codec A_CT_PositiveSize2D__cy) (ad_kind A_CT_PositiveSize2D__cy) (PInt z) = Ok (PInt z).
+Proof.
+  intros H. assert (Hb : (Z.abs z < 10 ^ Z.of_N int_max_str_digits)%Z) by (apply big_small; unfold big; lia).
+  cbn [ad_codec ad_kind A_CT_PositiveSize2D__cx A_CT_PositiveSize2D__cy stored row_codec enc dec].
+  rewrite desc_ST_PositiveCoordinate_ok. unfold desc_ST_PositiveCoordinate. cbn [desc_to_xml int_range_to_xml_b].
+  assert (Hr : in_range 0 27273042316900 z = true) by (apply in_range_spec; lia).
+  rewrite Hr. rewrite rdesc_ST_PositiveCoordinate_ok. unfold rdesc_ST_PositiveCoordinate. cbn [rdesc_from_xml py_int].
+  rewrite (int_of_str_of_Z z Hb). auto.
+Qed.
+
+(** for the four dimensions: an int the simple type accepts reads back as itself *)
+Lemma dim_accept_exact m z : In m ph_dims ->
+  accepts (ad_codec (dm_decl m)) (ad_kind (dm_decl m)) (PInt z) = true ->
+  stored (ad_codec (dm_decl m)) (ad_kind (dm_decl m)) (PInt z) = Ok (PInt z).
+Proof.
+  intros Hin. unfold ph_dims in Hin. cbn [In] in Hin.
+  destruct Hin as [<-|[<-|[<-|[<-|[]]]]]; cbn [dm_decl]; intros Hacc.
+  - assert (Hr : in_range (-27273042329600) 27273042316900 z = true).
+    { cbn [ad_codec ad_kind A_CT_Point2D__x accepts row_codec enc] in Hacc. rewrite desc_ST_Coordinate_ok in Hacc.
+      unfold desc_ST_Coordinate in Hacc. cbn [desc_to_xml int_range_to_xml_b] in Hacc.
+      destruct (in_range (-27273042329600) 27273042316900 z); auto; discriminate. }
+    apply in_range_spec in Hr. apply (coordinate_exact z Hr).
+  - assert (Hr : in_range (-27273042329600) 27273042316900 z = true).
+    { cbn [ad_codec ad_kind A_CT_Point2D__y accepts row_codec enc] in Hacc. rewrite desc_ST_Coordinate_ok in Hacc.
+      unfold desc_ST_Coordinate in Hacc. cbn [desc_to_xml int_range_to_xml_b] in Hacc.
+      destruct (in_range (-27273042329600) 27273042316900 z); auto; discriminate. }
+    apply in_range_spec in Hr. apply (coordinate_exact z Hr).
+  - assert (Hr : in_range 0 27273042316900 z = true).
+    { cbn [ad_codec ad_kind A_CT_PositiveSize2D__cx accepts row_codec enc] in Hacc. rewrite desc_ST_PositiveCoordinate_ok in Hacc.
+      unfold desc_ST_PositiveCoordinate in Hacc. cbn [desc_to_xml int_range_to_xml_b] in Hacc.
+      destruct (in_range 0 27273042316900 z); auto; discriminate. }
+    apply in_range_spec in Hr. apply (size_exact z Hr).
+  - assert (Hr : in_range 0 27273042316900 z = true).
+    { cbn [ad_codec ad_kind A_CT_PositiveSize2D__cy accepts row_codec enc] in Hacc. rewrite desc_ST_PositiveCoordinate_ok in Hacc.
+      unfold desc_ST_PositiveCoordinate in Hacc. cbn [desc_to_xml int_range_to_xml_b] in Hacc.
+      destruct (in_range 0 27273042316900 z); auto; discriminate. }
+    apply in_range_spec in Hr. apply (size_exact z Hr).
+Qed.
+
+Definition ph_chain (m : dim) : list level := xfrm_chain "sp"%lit ok_none ++ [dm_level m].
+Definition ph_L (m : dim) : list path := map lv_path (ph_chain m).
+
+(** a dimension that has its own value found p:spPr, a:xfrm and its a:off / a:ext *)
+Lemma ph_own_present m : In m ph_dims -> forall s y, eval (ph_own m) s = Ok y -> y <> PNone -> all_present (ph_L m) s = true.
+Proof.
+  intros Hin s y H Hy. unfold ph_own, pos_get, attr_gexp in H. cbn [eval] in H. fold (ph_chain m) in H.
+  destruct (eval (chain_get (ph_chain m) (GAttr (lv_path (dm_level m)) (ad_attr (dm_decl m)) (ad_codec (dm_decl m)) (ad_kind (dm_decl m)))) s)
+    as [y0|] eqn:E; [|discriminate].
+  unfold post_id in H. injection H as ->.
+  apply (chain_get_some _ _ _ _ E Hy).
+  unfold ph_dims in Hin. cbn [In] in Hin. destruct Hin as [<-|[<-|[<-|[<-|[]]]]]; reflexivity.
+Qed.
+
+(** the element-level setter of a dimension, as a program and as a step list *)
+Lemma pos_steps_run l d v s : run (pos_set "sp"%lit l d) v s =
+  match run_steps (pos_steps "sp"%lit l d) v s with (s', Ok _) => (s', Ok tt) | (s', Err e) => (s', Err e) end.
+Proof. change (pos_set "sp"%lit l d) with (seqs (pos_steps "sp"%lit l d) Done). rewrite run_seqs. reflexivity. Qed.
+
+Lemma ph_level_in m : In (lv_path (dm_level m)) (map lv_path (ph_chain m)).
+Proof. apply in_map. unfold ph_chain. apply in_or_app. right. left. auto. Qed.
+
+(** an accepted element-level assignment of an int makes the dimension's own value that int *)
+Lemma ph_own_set m z : In m ph_dims -> forall s s1 u, WF s ->
+  run_steps (kp_wr (ph_keep m)) (plain (PInt z)) s = (s1, Ok u) -> eval (ph_own m) s1 = Ok (PInt z).
+Proof.
+  intros Hin s s1 u Hwf H. cbn [kp_wr ph_keep] in H.
+  assert (R : run (pos_set "sp"%lit (dm_level m) (dm_decl m)) (plain (PInt z)) s = (s1, Ok tt)) by (rewrite pos_steps_run, H; auto).
+  destruct (checked_attr_accepted post_id (ph_chain m) (lv_path (dm_level m)) (dm_decl m) (plain (PInt z)) s s1 tt Hwf (ph_level_in m) R)
+    as [Hacc [Hev _]].
+  unfold ph_own, pos_get. fold (ph_chain m). rewrite Hev. cbn [av_val plain].
+  rewrite (dim_accept_exact m z Hin Hacc). reflexivity.
+Qed.
+
+(** the side conditions of Props_proofs.keep_reads, by computation on the four concrete setters *)
+Definition ph_side (before after : list dim) (mb ma : dim) : bool :=
+  let L := ph_L mb in
+  let main := pos_set "sp"%lit (dm_level ma) (dm_decl ma) in
+  safe L main
+  && forallb (fun k => negb (in_writes k (writes_in L main))) (reads (ph_own mb))
+  && keeps_quiet (ph_own mb) L (map ph_keep (before ++ after)).
+
+Lemma ph_keep_reads before after mb ma z v s :
+  In mb ph_dims -> ph_side before after mb ma = true ->
+  let p := Keep (map ph_keep before ++ ph_keep mb :: map ph_keep after) (pos_set "sp"%lit (dm_level ma) (dm_decl ma)) in
+  WF s -> snd (run p v s) = Ok tt -> eval (ph_get mb) s = Ok (PInt z) ->
+  eval (ph_get mb) (fst (run p v s)) = Ok (PInt z).
+Proof.
+  intros Hin Hside p Hwf Hok Hread. unfold ph_side in Hside.
+  apply andb_true_iff in Hside as [Hside Hq]. apply andb_true_iff in Hside as [Hsafe Hframe].
+  rewrite map_app in Hq.
+  assert (G : eval (ph_own mb) (fst (run p v s)) = Ok (PInt z)).
+  { apply (keep_reads (ph_own mb) (ph_L mb) (PInt z) ltac:(discriminate) (ph_own_present mb Hin)
+             (map ph_keep before) (map ph_keep after) (ph_keep mb) _ v s eq_refl Hsafe Hframe Hq (ph_own_set mb z Hin) Hwf Hok Hread). }
+  unfold ph_get. cbn [eval]. rewrite G. reflexivity.
+Qed.
+
+(** C09 frame for placeholder geometry: after an ACCEPTED assignment of any value to one of left / top /
+    width / height of a placeholder, each of the other three that read an integer before -- the
+    placeholder's own, or its base's while it had none -- reads that integer.  Guard, exactly: the state
+    is a tree, the assignment is accepted (a refused one: placeholder_reject_unchanged), and the other
+    dimension HAS a reading (not None; without one its partner's new a:off / a:ext gives it 0:
+    placeholder_none_partner_reads_zero). *)
+Theorem ph_others_read_same a b ea eb :
+  nth_error ph_entries a = Some ea -> nth_error ph_entries b = Some eb -> a <> b ->
+  forall v s z, WF s -> snd (run (e_set ea) v s) = Ok tt -> eval (e_get eb) s = Ok (PInt z) ->
+  eval (e_get eb) (fst (run (e_set ea) v s)) = Ok (PInt z).
+Proof.
+  intros Ha Hb Hne v s z Hwf.
+  destruct a as [|[|[|[|a]]]]; cbn in Ha; try (destruct a; discriminate); injection Ha as <-;
+  (destruct b as [|[|[|[|b]]]]; cbn in Hb; try (destruct b; discriminate); try congruence; injection Hb as <-);
+  cbn [e_get e_set ph_entry mk].
+  all: match goal with
+       | |- snd (run (ph_set ?i ?ma) _ _) = _ -> eval (ph_get ?mb) _ = _ -> _ =>
+           let rs := eval cbv [drop_nth ph_dims] in (drop_nth i ph_dims) in
+           match rs with
+           | [mb; ?x; ?y] => exact (ph_keep_reads [] [x; y] mb ma z v s ltac:(cbn; tauto) ltac:(vm_compute; reflexivity) Hwf)
+           | [?x; mb; ?y] => exact (ph_keep_reads [x] [y] mb ma z v s ltac:(cbn; tauto) ltac:(vm_compute; reflexivity) Hwf)
+           | [?x; ?y; mb] => exact (ph_keep_reads [x; y] [] mb ma z v s ltac:(cbn; tauto) ltac:(vm_compute; reflexivity) Hwf)
+           end
+       end.
+Qed.
+
+(** read-after-write for the assigned dimension: writing the others back does not disturb it *)
+Theorem ph_get_set a ea ma :
+  nth_error ph_entries a = Some ea -> nth_error ph_dims a = Some ma ->
+  forall v s x, WF s -> snd (run (e_set ea) v s) = Ok tt ->
+  stored (ad_codec (dm_decl ma)) (ad_kind (dm_decl ma)) (av_val v) = Ok x -> x <> PNone ->
+  accepts (ad_codec (dm_decl ma)) (ad_kind (dm_decl ma)) (av_val v) = true
+  /\ eval (e_get ea) (fst (run (e_set ea) v s)) = Ok x.
+Proof.
+  intros Ha Hm v s x Hwf Hok Hst Hx.
+  assert (Hin : In ma ph_dims) by (eapply nth_error_In; eauto).
+  assert (Hq : keeps_quiet (ph_own ma) (ph_L ma) (map ph_keep (drop_nth a ph_dims)) = true).
+  { destruct a as [|[|[|[|a]]]]; cbn in Hm; try (destruct a; discriminate); injection Hm as <-; vm_compute; reflexivity. }
+  assert (He : e_set ea = ph_set a ma /\ e_get ea = ph_get ma).
+  { destruct a as [|[|[|[|a]]]]; cbn in Hm; try (destruct a; discriminate); injection Hm as <-; cbn in Ha; injection Ha as <-; auto. }
+  destruct He as [Es Eg]. rewrite Es, Eg in *. unfold ph_set in *.
+  set (main := pos_set "sp"%lit (dm_level ma) (dm_decl ma)) in *.
+  assert (Hm1 : exists s1, run main v s = (s1, Ok tt)).
+  { cbn [run] in Hok. destruct (collect (map ph_keep (drop_nth a ph_dims)) s); [|discriminate].
+    destruct (run main v s) as [s1 [[]|e]]; [eauto|discriminate]. }
+  destruct Hm1 as [s1 R].
+  destruct (checked_attr_accepted post_id (ph_chain ma) (lv_path (dm_level ma)) (dm_decl ma) v s s1 tt Hwf (ph_level_in ma) R)
+    as [Hacc [Hev _]].
+  split; auto.
+  assert (G : eval (ph_own ma) (fst (run (Keep (map ph_keep (drop_nth a ph_dims)) main) v s)) = Ok x).
+  { apply (keep_assigned_reads (ph_own ma) (ph_L ma) x Hx (ph_own_present ma Hin) _ main v s Hq Hwf Hok).
+    rewrite R. cbn [fst]. unfold ph_own, pos_get. fold (ph_chain ma). rewrite Hev, Hst. reflexivity. }
+  unfold ph_get. cbn [eval]. rewrite G. destruct x; auto. congruence.
+Qed.
+
+(** the placeholder entries are the catalogue's *)
+Lemma ph_entries_in_catalogue :
+  map (fun e => find_entry (entry_label e)) ph_entries = map Some ph_entries.
+Proof. reflexivity. Qed.
+
+(** non-vacuity: the hypotheses of ph_others_read_same and ph_get_set hold for the witness state *)
+Lemma ex_ph_guard :
+  exists ea eb, nth_error ph_entries 0 = Some ea /\ nth_error ph_entries 1 = Some eb
+  /\ wf w_placeholder = true /\ snd (run (e_set ea) (plain (PInt 914400)) w_placeholder) = Ok tt
+  /\ eval (e_get eb) w_placeholder = Ok (PInt 1600200)
+  /\ stored (ad_codec A_CT_Point2D__x) (ad_kind A_CT_Point2D__x) (PInt 914400) = Ok (PInt 914400).
+Proof. eexists. eexists. split; [reflexivity|]. split; [reflexivity|]. vm_compute. auto. Qed.
 
 (** space_before / space_after / line spacing in points (ST_TextSpacingPoint): centipoints, rounding down *)
 Lemma spacing_point_writes z : (0 <= z <= 20116800)%Z ->
